@@ -498,6 +498,9 @@ func (in *Interp) sliceToStr(s *SliceV) *StrV {
 // maps
 
 func (in *Interp) mapFind(m *MapObj, k Value) *MapEntry {
+	if in.ob.LazyMaps {
+		return in.lazyMapFind(m, k) // x_c03.go
+	}
 	for _, e := range m.entries {
 		c := in.eqValue(e.k, k)
 		if c.IsFalse() {
@@ -545,6 +548,10 @@ func (in *Interp) mapUpdate(x Value, k, v Value) {
 	if a.m.sess != nil {
 		a.m.sess.touchMap(a.m)
 	}
+	if in.ob.LazyMaps {
+		in.lazyMapUpdate(a.m, k, v) // x_c03.go
+		return
+	}
 	if e := in.mapFind(a.m, k); e != nil {
 		e.v = v
 		return
@@ -560,6 +567,7 @@ func (in *Interp) mapDelete(x Value, k Value) {
 	if a.m.sess != nil {
 		a.m.sess.touchMap(a.m)
 	}
+	in.resolveLazyMap(a.m) // x_c03.go
 	e := in.mapFind(a.m, k)
 	if e == nil {
 		return
@@ -585,6 +593,7 @@ func (in *Interp) rangeIter(x Value) Value {
 	case *MapV:
 		it := &mapIter{}
 		if a.m != nil {
+			in.resolveLazyMap(a.m) // x_c03.go
 			it.m = a.m
 			it.snap = append([]*MapEntry{}, a.m.entries...)
 			if in.ob.PermuteMaps && len(it.snap) > 1 {
